@@ -593,12 +593,12 @@ func grpcDecodeTimeout(timeout string) (time.Duration, error) {
 	if unit == 0 {
 		return 0, protocolError("timeout %q has invalid unit", timeout)
 	}
-	num, err := strconv.ParseInt(timeout[:len(timeout)-1], 10 /* base */, 64 /* bitsize */)
-	if err != nil || num < 0 {
-		return 0, protocolError("invalid timeout %q", timeout)
-	}
-	if num > 99999999 { // timeout must be ASCII string of at most 8 digits
+	if len(timeout)-1 > 8 { // timeout must be ASCII string of at most 8 digits
 		return 0, protocolError("timeout %q is too long", timeout)
+	}
+	num, err := strconv.ParseUint(timeout[:len(timeout)-1], 10 /* base */, 64 /* bitsize */)
+	if err != nil {
+		return 0, protocolError("invalid timeout %q", timeout)
 	}
 	const grpcTimeoutMaxHours = 8
 	if unit == time.Hour && num > grpcTimeoutMaxHours {
@@ -606,7 +606,7 @@ func grpcDecodeTimeout(timeout string) (time.Duration, error) {
 		// implementation does the same thing.
 		return 0, errNoTimeout
 	}
-	return time.Duration(num) * unit, nil
+	return time.Duration(num) * unit, nil //nolint:gosec // at most 8 digits
 }
 
 func grpcEncodeTimeout(timeout time.Duration) string {
